@@ -36,15 +36,23 @@ def main():
         corpus = json.load(f)
     im = impl()
     transcript = []
+    reverse_first = "--reverse-first" in sys.argv
+    info["order"] = "reverse-first" if reverse_first else "forward-first"
     for prog in corpus["programs"]:
         c = im.construct(prog["text"])
         if c[0] != "ok":
             transcript.append({"construct": list(c[1:])})
             continue
         rows = []
-        for env in prog["inputs"]:
-            out = im.call(c[1], unjson(env))
-            rows.append(json.dumps(jsonable(out), sort_keys=True, ensure_ascii=True))
+        inputs = prog["inputs"]
+        order = list(range(len(inputs)))
+        if reverse_first:
+            order.reverse()
+        res = {}
+        for i in order:
+            out = im.call(c[1], unjson(inputs[i]))
+            res[i] = json.dumps(jsonable(out), sort_keys=True, ensure_ascii=True)
+        rows = [res[i] for i in range(len(inputs))]
         # second pass in reverse order on a second instance
         c2 = im.construct(prog["text"])
         rows2 = [json.dumps(jsonable(im.call(c2[1], unjson(env))), sort_keys=True, ensure_ascii=True) for env in reversed(prog["inputs"])]
